@@ -392,6 +392,9 @@ UNITS += [sc_unit(True), sc_unit(False)]
 def extra_units():
     """one-file-per-cell output goes through HandleLimiter: its write / prune / close contracts (C19) carry "written exactly
     once, earlier records of the cell preserved" for this property"""
-    from contracts import c19
+    from contracts import c19, c02
     from pyvc.units import share
-    return [share(c19.write, PROP), share(c19.prune, PROP), share(c19.close, PROP)]
+    # ... and the loader's assumption about the selected strategy (one record per mate, both mates carrying the same cell
+    # and strategy tags, so that per-cell files of the two mates stay synchronised) is C02's contract of every registered
+    # strategy, re-verified under this property
+    return [share(c19.write, PROP), share(c19.prune, PROP), share(c19.close, PROP)] + [share(u, PROP) for u in c02.UNITS]
